@@ -58,12 +58,13 @@ def zip_with_iterable_(
     """
 
     first = source
-    second = iter(seq)
 
     def subscribe(
         observer: abc.ObserverBase[tuple[_T, _TOther]],
         scheduler: abc.SchedulerBase | None = None,
     ):
+        # Iterate the sequence afresh for every subscription
+        second = iter(seq)
         index = 0
 
         def on_next(left: _T) -> None:
